@@ -92,16 +92,26 @@ Definition intro_kind (items : list item) : ik :=
 Definition keep_group (ae : bool) (g : list Z) : bool :=
   ae || parsable (text_of_items g) || match g with [z] => (z =? 0)%Z | _ => false end.
 
+(* token conversion of parse_graphic_sequence (as repaired, F33): only decimal digits - blanks around them tolerated -
+   become a number; int() alone would also accept signs, underscores and non-ASCII digits *)
+Definition norm_item_pgs (it : item) : item :=
+  match it with
+  | IInt z => IInt z
+  | IStr s => let s' := strip_ws s in
+              if negb (is_nil s') && forallb is_digit s' then norm_item (IStr s') else IStr s
+  end.
+
 (* the token loop; left = left_in_set, cur = current_set; output = setting texts, or ValueError
-   when an empty string token would have to become a setting *)
+   when an empty string token would have to become a setting.  A token that is not a number ends the set being
+   collected (as repaired, F34): the incomplete set is dropped, or reported first when add_erroneous is set *)
 Fixpoint pgs_loop (items : list item) (left : nat) (cur : list Z) (ae : bool) : res (list str) :=
   match items with
   | [] => OK (if ae && negb (is_nil cur) then [text_of_items cur] else [])
   | IStr s :: rest =>
       if ae then
         if is_nil s then Err ValueError
-        else do r <- pgs_loop rest left cur ae; OK (s :: r)
-      else pgs_loop rest left cur ae
+        else do r <- pgs_loop rest 0 [] ae; OK ((if is_nil cur then [] else [text_of_items cur]) ++ s :: r)
+      else pgs_loop rest 0 [] ae
   | IInt v :: rest =>
       let go (left : nat) :=
         let cur' := cur ++ [v] in
@@ -120,11 +130,11 @@ Fixpoint pgs_loop (items : list item) (left : nat) (cur : list Z) (ae : bool) : 
   end.
 
 Definition pgs_items (items : list item) (ae : bool) : res (list str) :=
-  match items with [] => OK [[CH_0]] | _ => pgs_loop (map norm_item items) 0 [] ae end.
+  match items with [] => OK [[CH_0]] | _ => pgs_loop (map norm_item_pgs items) 0 [] ae end.
 Definition items_of_str (w : str) : list item :=
   map (fun s => let s' := strip_ws s in IStr (if is_nil s' then [CH_0] else s')) (split_char SEMI w).
 Definition pgs_str (w : str) (ae : bool) : res (list str) :=
-  match w with [] => OK [[CH_0]] | _ => pgs_loop (map norm_item (items_of_str w)) 0 [] ae end.
+  match w with [] => OK [[CH_0]] | _ => pgs_loop (map norm_item_pgs (items_of_str w)) 0 [] ae end.
 Definition pgs_codes (cs : list N) (ae : bool) : res (list str) :=
   pgs_items (map (fun c => IInt (Z.of_N c)) cs) ae.
 
